@@ -317,7 +317,10 @@ def step (g : G) (op : R17.Op) (obs : String) : G :=
         { g with live := child ++ ({ slot := s, host := h, key := key, peer := some p, kind := 's' } :: g.live) }
       | _, _ => g.fail "tconnect: unparsable ok"
     | "err" :: "refused" :: _ =>
-      if hasL then g.fail s!"tconnect s{s}: refused although a live listener matches" else g
+      -- an unknown destination (owned by no host; the unspecified address is one) is routed nowhere:
+      -- the SYN is lost, nobody can have answered it
+      if dh.isNone then g.fail s!"tconnect s{s}: refused although {R17.ipTok ip} is routed to no host (the SYN cannot have been answered)"
+      else if hasL then g.fail s!"tconnect s{s}: refused although a live listener matches" else g
     | _ => g
   | .accept h s ns =>
     let toks := obs.splitOn " "
